@@ -591,7 +591,7 @@ func buildResourceTrafficShapingController(res string, rulesOfRes []*Rule, oldRe
 	// very same fields. Only rules that continue no old rule by ID are matched by their fields alone.
 	idInOld := make(map[string]bool, len(oldResTcs))
 	for _, oldTc := range oldResTcs {
-		idInOld[oldTc.BoundRule().ID] = true
+		idInOld[oldTc.loadedRuleID()] = true
 	}
 	spokenFor := make(map[string]bool, len(rulesOfRes))
 	for _, rule := range rulesOfRes {
@@ -611,10 +611,10 @@ func buildResourceTrafficShapingController(res string, rulesOfRes []*Rule, oldRe
 				if reserved[oldTc] || !oldTc.BoundRule().isEqualsTo(rule) {
 					continue
 				}
-				if pass == 0 && oldTc.BoundRule().ID != rule.ID {
+				if pass == 0 && oldTc.loadedRuleID() != rule.ID {
 					continue
 				}
-				if pass == 1 && spokenFor[oldTc.BoundRule().ID] {
+				if pass == 1 && spokenFor[oldTc.loadedRuleID()] {
 					continue
 				}
 				reserved[oldTc] = true
@@ -633,7 +633,7 @@ func buildResourceTrafficShapingController(res string, rulesOfRes []*Rule, oldRe
 			continue
 		}
 		for _, oldTc := range oldResTcs {
-			if !reserved[oldTc] && keptFor[oldTc] == nil && oldTc.BoundRule().ID == rule.ID && oldTc.BoundRule().isStatReusable(rule) {
+			if !reserved[oldTc] && keptFor[oldTc] == nil && oldTc.loadedRuleID() == rule.ID && oldTc.BoundRule().isStatReusable(rule) {
 				keptFor[oldTc] = rule
 				break
 			}
@@ -673,6 +673,8 @@ func buildResourceTrafficShapingController(res string, rulesOfRes []*Rule, oldRe
 			// reuse the old tc
 			equalOldTc := oldResTcs[equalIdx]
 			newTcsOfRes = append(newTcsOfRes, equalOldTc)
+			// The rule object in the controller stays; the ID it goes by from now on is the new rule's.
+			equalOldTc.setLoadedRuleID(rule.ID)
 			// remove old tc from oldResTcs
 			oldResTcs = append(oldResTcs[:equalIdx], oldResTcs[equalIdx+1:]...)
 			continue
